@@ -81,7 +81,9 @@ def run(ctx):
     rc2, mlog = vlib.sh([drv, out], timeout=3000)
     m = re.search(r"CHECKS (\d+) MISMATCHES (\d+) WFFAIL (\d+)", mlog)
     checks, mism, wff = (int(m.group(1)), int(m.group(2)), int(m.group(3))) if m else (0, -1, -1)
-    if (mism != 0 or wff != 0) and not summ["fails"]:
+    known_sigs = {k["signature"] for k in ctx.known_open}
+    new_fails = [f for f in summ["fails"] if f[0] not in known_sigs]
+    if (mism != 0 or wff != 0) and not new_fails:
         first = "\n".join(l for l in mlog.split("\n") if l.startswith(("MISMATCH", "MODELRT", "WFFAIL", "DRIVERERR")))[:1500]
         ctx.violation("c12-correspondence", "model and implementation disagree (%s mismatches, %s wf failures); the theorems of "
                       "Properties/C12.v no longer speak about this code: %s" % (mism, wff, first),
